@@ -6,6 +6,9 @@ use crate::trace::{Trace, Violation};
 
 pub mod c01;
 pub mod c02;
+pub mod inv;
+pub mod steps;
+pub mod stream;
 
 #[derive(Clone, Copy, Debug, PartialEq, Eq)]
 pub enum Tier {
@@ -39,7 +42,50 @@ pub trait Property: Sync + Send {
 }
 
 pub fn all() -> Vec<Box<dyn Property>> {
-    vec![Box::new(c01::C01), Box::new(c02::C02)]
+    let mut v: Vec<Box<dyn Property>> = vec![
+        Box::new(c01::C01),
+        Box::new(c02::C02),
+        Box::new(inv::C09),
+        Box::new(inv::C10),
+        Box::new(inv::C15),
+        Box::new(inv::C17),
+        Box::new(stream::C03),
+        Box::new(stream::C11),
+        Box::new(stream::C19),
+    ];
+    for sp in steps::STEP_PROPS {
+        v.push(Box::new(StepRef(sp)));
+    }
+    v
+}
+
+/// registry handle for a static StepProp
+pub struct StepRef(pub &'static steps::StepProp);
+impl Property for StepRef {
+    fn id(&self) -> &'static str {
+        self.0.id()
+    }
+    fn level(&self) -> &'static str {
+        self.0.level()
+    }
+    fn rule(&self) -> &'static str {
+        Property::rule(self.0)
+    }
+    fn assumptions(&self) -> Vec<&'static str> {
+        self.0.assumptions()
+    }
+    fn runs(&self, tier: Tier) -> u64 {
+        self.0.runs(tier)
+    }
+    fn generate(&self, seed: u64, index: u64, tier: Tier) -> Trace {
+        self.0.generate(seed, index, tier)
+    }
+    fn check(&self, trace: &Trace, cov: &mut Coverage) -> Result<(), Violation> {
+        self.0.check(trace, cov)
+    }
+    fn owns_panic(&self, op: &str) -> bool {
+        self.0.owns_panic(op)
+    }
 }
 
 pub fn by_id(id: &str) -> Option<Box<dyn Property>> {
